@@ -260,7 +260,8 @@ pub fn arb_soup(max_len: usize) -> BoxedStrategy<Vec<Tok>> {
     pvec(arb_soup_token(), 0..max_len).boxed()
 }
 
-const RAW_ATOMS: [&str; 71] = [
+const RAW_ATOMS: [&str; 83] = [
+    "٣", "５", "²", "½", "Ⅷ", "1e+٣", "2.5e-５", "rate-fee", "e-", "2e+*", "\r\n", "Σ",
     "0xFFFFFFFFFFFFFFFF", "0x8000000000000000", "0x10000000000000000", "0xdeadbeefdeadbeef", "18446744073709551615", "-9223372036854775808", "Infinity",
     "+", "-", "*", "/", "%", "^", "(", ")", ",", ";", "=", "!", "<", ">", "&", "|", "&&", "||", "==", "!=", "<=", ">=",
     "+=", "-=", "&&=", "||=", "\"", "\\", "\\\"", "//", "/*", "*/", "\n", " ", "\t", "\u{a0}", "a", "b", "f", "x", "1",
